@@ -126,6 +126,7 @@ theorem applySystem_updated (E : Env σ) (cfg : RCfg) (w : World σ) (cs : List 
       cases hbg : isBackground c
       · cases hrun : (E.cmd w.db c).2 with
         | spawnErr => simp [applySystem, hskip, hsub, hbg, hrun] at h
+        | signal sig out => simp [applySystem, hskip, hsub, hbg, hrun] at h
         | exit code out =>
           by_cases hc : code = 0
           · simp only [applySystem, hskip, hsub, hbg, hrun, hc] at h ⊢
